@@ -3,43 +3,54 @@ N_QUICK = 400
 N_THOROUGH = 12000
 MODEL_SHOW = "run"
 DISAGREE_IS_VIOLATION = True   # observables are exactly what the property fixes
-RULE = ("exposure stream: every zoo entry (34 registrations - value, pointer, one unnamed struct type - of 30 entry types, 122 methods) x 7 naming functions "
-        "(x 3 group options in the thorough tier), two methods per case: HasMethod for every declared name "
-        "renamed/raw/mutated (7 routes per method), GetArgType for the real route, one CallWithSerialize per method; "
-        "behaviours stream: every zoo entry x {JSON, protobuf} x method with a context and a message parameter: 6 handler "
-        "behaviours x with/without completion function, matching/nil/foreign context, undecodable payload, through "
-        "CallWithSerialize and APICollection.Call (nil / foreign message too; short list for non-handler-shaped methods in quick); f4 stream: 2 (quick) / 6 (thorough) three-op cases "
-        "calling a notify-shaped method with a completion function; random: 1-4 registrations (group collisions, "
-        "register-after-build, no build), 4-15 ops with real / mutated / random / special routes, encoded / "
-        "malformed / random / empty payloads, nil serializer. Non-trivial = some HasMethod answered true or some "
-        "call produced an event (method invocation or completion); distinct = distinct op sequences.")
+RULE = ("exposure stream: every zoo entry (37 registrations - value, pointer, one unnamed struct type - of 33 entry types, "
+        "134 methods) x 7 naming functions (x 3 group options in the thorough tier), two methods per case: HasMethod for "
+        "every declared name renamed/raw/mutated (7 routes per method), GetArgType for the real route, one CallWithSerialize "
+        "per method; behaviours stream: every zoo entry x {JSON, protobuf} x method with a context and a message parameter: "
+        "7 handler behaviours x with/without completion function, matching/nil/foreign context, undecodable payload, through "
+        "CallWithSerialize and APICollection.Call (nil / foreign message too; short list for non-handler-shaped methods in "
+        "quick); dispatch stream: a real actorex/service.Service with an APIDispatcher over 1-3 collections of entries taking "
+        "*RemoteContext (5 configurations x dispatcher orders incl. empty / repeated / unbuilt collection) x every route of "
+        "theirs plus unknown / malformed / empty ones x request ids and notifications x 7 behaviours x protobuf bodies "
+        "(good, truncated, invalid, empty), sent as hand-made ServiceRequest messages by a recording peer actor; f4 stream: "
+        "3 (quick) / 9 (thorough) three-op cases addressing a notify-shaped method with a completion function / request id; "
+        "random: 1-4 registrations (group collisions, register-after-build, no build), 4-15 ops with real / mutated / random "
+        "/ special routes, encoded / malformed / random / empty payloads, nil serializer; every third random case is a "
+        "dispatch case (1-3 collections, random dispatcher order per request). Non-trivial = some HasMethod answered true or "
+        "some call / request produced an event (method invocation, completion or response); distinct = distinct op sequences.")
 TRUSTED_BASE = [
     "Coq 8.16.1 kernel + vm_compute (case evaluation, Example, the _refuted witnesses); no native_compute",
-    "hand translation apimapper/formater/formater.go, apimapper/apientry/{container,collection,caller,utils}.go -> C13/Model.v "
-    "(with hooks/C13-fix-once-guard.patch applied), measured by this correspondence run",
+    "hand translation apimapper/formater/formater.go, apimapper/apientry/{container,collection,caller,utils}.go, "
+    "actorex/service/api.go and Service.handleRequest -> C13/Model.v (with hooks/C13-fix-once-guard*.patch and "
+    "hooks/C13-fix-request-deserialize.patch applied), measured by this correspondence run",
     "Go harness harness/c13: method descriptors derived with package reflect (Kind, Implements, AssignableTo, method order) "
     "and a static list for unexported methods; decode oracle = encoding/json and google.golang.org/protobuf called directly; "
-    "bin/check.py JSON->Coq term printer",
+    "Dispatch layer: real Service + recording peer in a local protoactor system, responses classified by ErrCode and the "
+    "'no method' prefix of ErrInfo, actor failure observed as *actor.Restarting; bin/check.py JSON->Coq term printer",
     "modelled not verified: package reflect (Method enumeration in name order, Call's assignability check and its panic), "
     "Go maps (as association lists), recover() catching every panic of the handler goroutine, encoding/json and protobuf "
-    "(enter as the per-type decode table of each call), strings.Split",
-    "actorex/service/api.go (APIDispatcher) is not driven: it needs a live Service/actor context; it only composes HasMethod "
-    "and CallWithSerialize, which are covered",
+    "(enter as the per-type decode table of each call / request), strings.Split, protoactor (local Send = FIFO delivery to the "
+    "target mailbox, supervisor restarts a failing actor), remote.Serialize/Deserialize (enter as rawok and as the "
+    "'result cannot be serialised' behaviour)",
 ]
 ASSUMPTIONS = [
     "type and method names are ASCII (isExported / strings.ToLower / ToUpper are modelled on ASCII bytes)",
-    "handlers complete synchronously on the calling goroutine (the model is sequential); the caller's completion function itself does not panic",
-    "a request handler whose own code returns normally without ever completing (behaviour BNever) is outside 'exactly once': the theorems give 0 completions for it",
+    "handlers complete synchronously on the calling goroutine (the model is sequential); a completion function panics only in the one modelled way (Service.Response on a result it cannot serialise)",
+    "a request handler whose own code returns normally without ever completing (behaviour BNever) is outside 'exactly once': the theorems give 0 completions / responses for it",
     "the per-container serializer option and serializeRet are not used on this call path and are not modelled",
+    "Dispatch layer: the service has a dispatcher set; requests carry the registered type name of TestHello (an unknown type name takes the same repaired path as an undecodable body and is covered only by the Go test in the patch); a type-based ReceiveRequest that itself answers a request the dispatcher already refused with 'no method' would produce a second response - the harness's receiver only records the fall-through",
 ]
-TECHNIQUE = ("Coq proof (Build()'s tables refine a declarative resolution over the registered descriptors; master equation for the "
-             "event trace of every call) + differential correspondence against the real APICollection / CallWithSerialize over a zoo of entry types")
+TECHNIQUE = ("Coq proof (Build()'s tables refine a declarative resolution over the registered descriptors; master equations for the "
+             "event trace of every call and for the responses of every dispatched request) + differential correspondence against the real "
+             "APICollection / CallWithSerialize and a real actorex/service.Service with APIDispatcher, over a zoo of entry types")
 LEVEL_TEXT = ("Machine-checked Coq theorems over ALL entry sets, naming functions, routes, payload decode tables, contexts and handler "
               "behaviours: exposure iff handler shape (and nothing else), GetArgType = declared message type, the targeted method runs "
               "exactly once with the decoded value, no method runs in any failure case, no panic escapes, and - outside the one "
-              "situation F4 - a completion function is completed exactly as owed (once; with an error in every failure case). The "
-              "unrestricted completion theorem is proved FALSE for today's code (F4, known finding; the existing test TestCall pins it). "
-              "The model is tied to the Go code by running both on the same histories each run.")
+              "situation F4 - a completion function is completed exactly as owed (once; with an error in every failure case); through "
+              "Service.handleRequest + APIDispatcher.Dispatch over any list of collections: exactly one response per request ('no method' "
+              "when no collection has the route, an error in every other failure case), none per notification, the service never fails. "
+              "The unrestricted completion / one-response theorems are proved FALSE for today's code (F4, known finding; the existing test "
+              "TestCall pins it). The model is tied to the Go code by running both on the same histories each run.")
 
 
 # ---- known finding F4: completion function passed to a notify-shaped method ----
